@@ -124,3 +124,12 @@ mod test {
         assert_eq!(merge_ops, vec![1, 1, 1, 1, 1, 0, 0, 0, 1, 0]);
     }
 }
+
+#[cfg(feature = "verif")]
+pub fn verif_merge<'a, T: VecData<T> + 'a, C: Comparator<T>>(
+    left: &[T],
+    right: &[T],
+    limit: usize,
+) -> (Vec<T>, Vec<u8>) {
+    merge::<T, C>(left, right, limit)
+}
